@@ -246,6 +246,87 @@ pub mod generics {
     }
 }
 
+pub mod reach {
+    use super::*;
+    #[derive(TypeInfo)]
+    pub struct A1 {
+        pub x: u8,
+    }
+    #[derive(TypeInfo)]
+    pub struct B1 {
+        pub y: Inner,
+    }
+    #[derive(TypeInfo)]
+    pub struct Inner(pub u16);
+    #[derive(TypeInfo)]
+    pub struct Foo<T> {
+        pub t: T,
+    }
+    #[derive(TypeInfo)]
+    pub enum Choice {
+        L(A1),
+        R { b: Vec<B1> },
+        N,
+    }
+    #[derive(TypeInfo)]
+    pub struct Other {
+        pub arr: [A1; 2],
+        pub tup: (u8, Inner),
+        pub c: Compact<super::compact::Wrapper>,
+    }
+    #[derive(TypeInfo)]
+    pub struct Top {
+        pub a: Foo<A1>,
+        pub b: Foo<B1>,
+        pub c: Option<Choice>,
+        pub o: Other,
+        pub alone: Lonely,
+    }
+    #[derive(TypeInfo)]
+    pub struct Lonely(pub bool);
+}
+
+pub mod compact_as {
+    use super::*;
+    #[derive(TypeInfo)]
+    pub struct OneU128(pub u128);
+    #[derive(TypeInfo)]
+    pub struct OneU8 {
+        pub v: u8,
+    }
+    #[derive(TypeInfo)]
+    pub struct OneI(pub i32);
+    #[derive(TypeInfo)]
+    pub struct OneBool(pub bool);
+    #[derive(TypeInfo)]
+    pub struct OneVec(pub Vec<u8>);
+    #[derive(TypeInfo)]
+    pub struct GenOne<T>(pub T);
+    #[derive(TypeInfo)]
+    pub struct TwoU(pub u32, pub u64);
+    #[derive(TypeInfo)]
+    pub struct NoFields;
+    #[derive(TypeInfo)]
+    pub enum OneVariant {
+        V(u32),
+    }
+    #[derive(TypeInfo)]
+    pub struct OneStruct(pub OneU8);
+    #[derive(TypeInfo)]
+    pub struct All {
+        pub a: OneU128,
+        pub b: OneU8,
+        pub c: OneI,
+        pub d: OneBool,
+        pub e: OneVec,
+        pub f: GenOne<u32>,
+        pub g: TwoU,
+        pub h: NoFields,
+        pub i: OneVariant,
+        pub j: OneStruct,
+    }
+}
+
 pub mod rec {
     use super::*;
     #[derive(TypeInfo)]
@@ -446,6 +527,8 @@ pub fn all() -> Vec<(&'static str, PortableRegistry)> {
         ("modules", reg_of::<generics::UsesInner>()),
         ("boxed_param", reg_of::<generics::UsesBoxedParam>()),
         ("phantom", reg_of::<generics::UsesPh>()),
+        ("reach", reg_of::<reach::Top>()),
+        ("compact_as", reg_of::<compact_as::All>()),
         ("rec", reg_of::<rec::Rec>()),
         ("tree", reg_of::<rec::UsesTree>()),
         ("mutual", reg_of::<rec::MutA>()),
